@@ -162,6 +162,19 @@ impl Profile {
                 p.hist_len = (1, 12);
                 p.pct_lifecycle = 6;
             }
+            "C11" => {
+                p.name = "C11-caught-user-panics";
+                p.pct_inject = 35;
+                p.pct_thread = 15;
+                p.pct_clone_op = 10;
+                p.pct_lifecycle = 4;
+                p.pct_build_error = 0;
+                p.pct_nofunc = 0;
+                p.resp_weights = [6, 1, 4, 4, 1, 3, 3];
+                p.pct_partial = 45;
+                p.pct_unmentioned_call = 15;
+                p.hist_len = (2, 14);
+            }
             "C09" => {
                 p.name = "C09-lifecycle";
                 p.n_methods = (0, 3);
